@@ -78,6 +78,7 @@ func (s *stepper) newServer(key []byte, ttl time.Duration, cachecap int) (*vgirp
 func (s *stepper) Begin(b replay.Behaviour, rng *rand.Rand) error {
 	a := b[0].Args
 	s.rng = rng
+	identStyle = rng.Intn(3)
 	ttl := time.Duration(replay.Int(a, "ttl")) * time.Second
 	cachecap := replay.Int(a, "cachecap")
 	n := replay.Int(a, "ninst")
@@ -121,7 +122,30 @@ func (s *stepper) End() {}
 
 // concrete identity for an abstract one ("a@d1" etc. are used verbatim; some draws
 // replace them by adversarial but distinct values)
-func ident(id string) string { return id }
+//
+// identStyle (drawn per behaviour): 0 = verbatim; 1 = every non-empty principal gets the same
+// 120-byte prefix (long mTLS subject DNs / SPIFFE ids that differ only at the end); 2 = the same
+// for domains. Distinct abstract identities stay distinct.
+var identStyle int
+
+const longPrefix = "spiffe://prod.example.internal/ns/payments/sa/ledger-writer/region/eu-central-1/cluster/blue/instance/0123456789abcdef/"
+
+func ident(id string) string {
+	if identStyle == 0 || id == "" || id == "anon" || id == "reject" {
+		return id
+	}
+	p, d, ok := strings.Cut(id, "@")
+	if !ok {
+		return id
+	}
+	if identStyle == 1 && p != "" {
+		p = longPrefix + p
+	}
+	if identStyle == 2 && d != "" {
+		d = longPrefix + d
+	}
+	return p + "@" + d
+}
 
 func (s *stepper) initOn(h *vgirpc.HttpServer, m, id, sid string) *httpx.Resp {
 	sc := svc.Script{SID: sid, PosVal: true, Turns: []string{"emit", "emit", "emit", "emit", "emit", "emit", "emit", "emit"}}
@@ -240,12 +264,70 @@ func classify(r *httpx.Resp) string {
 	return "exc:" + e.EType + ":" + m
 }
 
+// authOf is the AuthContext the header-driven authenticator (httpx.Authenticate) builds for
+// an abstract identity.
+func authOf(id string) *vgirpc.AuthContext {
+	c := ident(id)
+	if c == "" || c == "anon" {
+		return vgirpc.Anonymous()
+	}
+	p, d, _ := strings.Cut(c, "@")
+	return &vgirpc.AuthContext{Domain: d, Principal: p, Authenticated: true}
+}
+
+// classifyErr names the refusal of the call-token layer the way classify names responses.
+func classifyErr(err error) string {
+	if err == nil {
+		return "ok"
+	}
+	m := err.Error()
+	switch {
+	case strings.Contains(m, "owner's cursor does not open"):
+		return "probe-impossible: " + m
+	case strings.Contains(m, "signature verification failed"):
+		return "sig"
+	case strings.Contains(m, "Unsupported state token version"):
+		return "version"
+	case strings.Contains(m, "State token expired"):
+		return "expired"
+	case strings.Contains(m, "Missing call token"):
+		return "missing_call"
+	case strings.Contains(m, "Malformed state token"):
+		return "malformed"
+	}
+	return "err:" + m
+}
+
 func (s *stepper) Step(i int, st replay.Step) (replay.Obs, error) {
 	obs := replay.Obs{}
 	a := st.Args
 	switch st.A {
 	case "Setup":
 		obs["ok"] = true
+	case "ProbeCall":
+		// the call-token layer alone (vgirpc.VerifResolveCall): the owner's cursor is opened as
+		// its owner, then identity `id` presents the call token (or none)
+		sl := replay.Int(a, "s")
+		sm := s.streams[sl]
+		if sm == nil {
+			return nil, fmt.Errorf("probe on unknown stream %d", sl)
+		}
+		var ctok []byte
+		if replay.Str(a, "ct") == "probe_own" {
+			ctok = []byte(sm.call)
+		}
+		var dec string
+		func() {
+			defer func() {
+				if r := recover(); r != nil {
+					dec = fmt.Sprintf("PANIC: %v", r)
+				}
+			}()
+			_, err := vgirpc.VerifResolveCall(s.inst[replay.Int(a, "inst")-1], []byte(sm.cursor), authOf(sm.id), ctok, authOf(replay.Str(a, "id")))
+			dec = classifyErr(err)
+		}()
+		obs["dec"] = dec
+		obs["accepted"] = dec == "ok"
 	case "Tick":
 		time.Sleep(time.Second)
 		obs["now"] = replay.Int(st.Exp, "now") // virtual clock advanced by exactly one unit
